@@ -11,10 +11,11 @@ CONSTANTS
   MaxTouch = 1
   InitConts <- InitAS
   InFlightReads = FALSE
-  AlignedOnly = TRUE
+  AlignedOnly = FALSE
 INVARIANT RetainedReadable
 INVARIANT PrunedNeverDifferent
 INVARIANT NoWrongNode
 INVARIANT RootCanonical
 INVARIANT PrunedUnreadable
+INVARIANT LayoutPersistent
 CHECK_DEADLOCK FALSE
